@@ -1,5 +1,6 @@
 import DoviModel.Model.XmlSpec
 import DoviModel.Props.C10
+import DoviModel.Proofs.XmlMoreProof
 /-!
 # C11 — CM XML documents generate the documented integer encodings
 
@@ -487,5 +488,658 @@ theorem frame_edit_on_its_frame (c : Config) (base : Rpu) (s : Shot) (i : Nat) (
   unfold frameRpu
   simp [hd, he]
   cases (DmData.replaceBlocks (if i = 0 ∨ c.longPlay = true then { d with scene_refresh_flag := 1 } else d) s.blocks) <;> rfl
+
+end Dovi.C11
+
+/-! # Audit additions: PQ from nits, L6, L3, L11, L254, L10, clamp order, per-frame override at list level
+
+`Model/XmlSpec.lean` takes the PQ codes of a target display, `config.level6`, the L11 default block and the L254
+pair as already-computed integers.  Their value functions over scaled decimals are `Dovi.XmlMore.pqOfNits`,
+`pqOfDecimal`, `pqOfMinLum`, `l6OfXml`, `l11OfXml`, `l254Block` (`Proofs/XmlMoreProof.lean`); the PQ codes are
+the certified tables of `Model/PqTable.lean` (`C19.pq_table_certified`, `pq_minlum_certified`,
+`codeOfRat_certified`: within `1/2 − 10⁻⁶` of `4095·PQ`).  Every encoding of `Model/XmlSpec.lean` is
+`clampRound hi A D = min hi (toNat (round_half_away (A / D)))`, characterised by `clampRound_ge_iff`.
+-/
+namespace Dovi.C11
+open Dovi Dovi.Gen Dovi.Xml Dovi.XmlMore Dovi.PqTable Dovi.EditGenProof.Gen
+
+/-! ## rounding, clamping, and their order -/
+
+/-- **all encodings round to nearest (ties away from zero) and clamp AFTER the affine map**: for `1 ≤ k ≤ hi` the
+encoded value is at least `k` exactly when the exact un-clamped value `A / D` is at least `k − 1/2` -/
+theorem encoding_threshold (hi k : Nat) (A : Int) (D : Nat) (hD : 0 < D) (hk : 1 ≤ k) (hkh : k ≤ hi) :
+    k ≤ clampRound hi A D ↔ (2 * (k : Int) - 1) * D ≤ 2 * A :=
+  clampRound_ge_iff hi k A D hD hk hkh
+
+example : (0 : Nat) < M ∧ 1 ≤ 2048 ∧ 2048 ≤ 4095 := by decide
+
+/-- the three regimes of an encoding: 0 below 1/2, `hi` from `hi − 1/2` on, the nearest integer in between;
+monotone in the exact value; exact on integers -/
+theorem encoding_regimes (hi : Nat) (A : Int) (D : Nat) (hD : 0 < D) (hhi : 1 ≤ hi) :
+    clampRound hi A D ≤ hi ∧
+    (clampRound hi A D = 0 ↔ 2 * A < D) ∧
+    (clampRound hi A D = hi ↔ (2 * (hi : Int) - 1) * D ≤ 2 * A) ∧
+    (1 ≤ clampRound hi A D → clampRound hi A D < hi →
+      (2 * (clampRound hi A D : Int) - 1) * D ≤ 2 * A ∧ 2 * A < (2 * (clampRound hi A D : Int) + 1) * D) ∧
+    (∀ B : Int, A ≤ B → clampRound hi A D ≤ clampRound hi B D) ∧
+    (∀ k : Nat, k ≤ hi → clampRound hi ((k : Int) * D) D = k) :=
+  ⟨clampRound_le hi A D, clampRound_eq_zero_iff hi A D hD hhi, clampRound_eq_hi_iff hi A D hD hhi,
+   clampRound_nearest hi A D hD, fun B h => clampRound_mono hi A B D hD h, fun k hk => clampRound_int hi k D hD hk⟩
+
+/-- which `clampRound` each encoding of `Model/XmlSpec.lean` is: the exact numerator is built from the
+UN-clamped document values (only gamma is clamped before the map, as documented) -/
+theorem encodings_are_clampRound (lift gain gamma v : Int) :
+    lin12 v = clampRound 4095 (v * 2048 + 2048 * M) M ∧
+    slope12 lift gain = clampRound 4095 (((gain + 2 * M) * (2 * M - lift) - 4 * M * M) * 2048 + 2048 * (2 * M * M)) (2 * M * M) ∧
+    offset12 lift gain = clampRound 4095 ((gain + 2 * M) * lift * 2048 + 2048 * (2 * M * M)) (2 * M * M) ∧
+    power12 gamma = clampRound 4095 (2048 * (2 * M - clampGamma gamma)) (2 * M + clampGamma gamma).toNat ∧
+    vec8 v = clampRound 255 (v * 128 + 128 * M) M ∧
+    pq12 v = clampRound 65535 (v * 4095) M ∧
+    l3off v = clampRound 65535 (v * 2048 + 2048 * M) M ∧
+    prim16 v = clampRound 65535 (v * 32767) M :=
+  ⟨lin12_eq v, slope12_eq lift gain, offset12_eq lift gain, power12_eq gamma, vec8_eq v, pq12_eq v, l3off_eq v, prim16_eq v⟩
+
+/-- the linear trims are monotone in the document value and saturate exactly where the exact value crosses
+4094.5 (resp. 0.5): `v·2048 + 2048 ≥ 4094.5 ⇔ v ≥ 0.999267578125` -/
+theorem lin12_mono_sat (v w : Int) :
+    (v ≤ w → lin12 v ≤ lin12 w) ∧ (lin12 v = 4095 ↔ 999267578125 ≤ v * 1000000) ∧
+    (lin12 v = 0 ↔ v * 1000000 < -999755859375) := by
+  refine ⟨fun h => ?_, ?_, ?_⟩
+  · rw [lin12_eq, lin12_eq]
+    exact clampRound_mono _ _ _ _ M_pos (by omega)
+  · rw [lin12_eq, clampRound_eq_hi_iff _ _ _ M_pos (by decide)]
+    simp only [M]
+    omega
+  · rw [lin12_eq, clampRound_eq_zero_iff _ _ _ M_pos (by decide)]
+    simp only [M]
+    omega
+
+/-- the same for the vector fields, L1 values, L3 offsets and custom primaries -/
+theorem encodings_mono (v w : Int) (h : v ≤ w) :
+    vec8 v ≤ vec8 w ∧ pq12 v ≤ pq12 w ∧ l3off v ≤ l3off w ∧ prim16 v ≤ prim16 w := by
+  rw [vec8_eq, vec8_eq, pq12_eq, pq12_eq, l3off_eq, l3off_eq, prim16_eq, prim16_eq]
+  exact ⟨clampRound_mono _ _ _ _ M_pos (by omega), clampRound_mono _ _ _ _ M_pos (by omega),
+    clampRound_mono _ _ _ _ M_pos (by omega), clampRound_mono _ _ _ _ M_pos (by omega)⟩
+
+/-- slope is monotone in gain (for lift ≤ 2) and offset is monotone in gain (for lift ≥ 0): the products use the
+un-clamped factors -/
+theorem slope_offset_mono_gain (lift g g' : Int) (h : g ≤ g') :
+    (lift ≤ 2 * M → slope12 lift g ≤ slope12 lift g') ∧ (0 ≤ lift → offset12 lift g ≤ offset12 lift g') := by
+  have hD : 0 < 2 * M * M := by decide
+  constructor
+  · intro hl
+    rw [slope12_eq, slope12_eq]
+    apply clampRound_mono _ _ _ _ hD
+    have h1 : (g + 2 * M) * (2 * M - lift) ≤ (g' + 2 * M) * (2 * M - lift) :=
+      Int.mul_le_mul_of_nonneg_right (by omega) (by omega)
+    omega
+  · intro hl
+    rw [offset12_eq, offset12_eq]
+    apply clampRound_mono _ _ _ _ hD
+    have h1 : (g + 2 * M) * lift ≤ (g' + 2 * M) * lift := Int.mul_le_mul_of_nonneg_right (by omega) hl
+    have h2 : (g + 2 * M) * lift * 2048 ≤ (g' + 2 * M) * lift * 2048 := Int.mul_le_mul_of_nonneg_right h1 (by decide)
+    omega
+
+/-- **clamp order**: lift and gain enter the slope / offset products un-clamped and only the result is clamped.
+Lift 2.0, gain 1.0: the exact slope value is −2048 → 0, whereas clamping the inputs to [−1, 1] first (the seeded
+change C11-2) gives 1024.  Lift 1.0, gain −1.5: offset 2560, with the gain clamped first 3072.  Values beyond
+the range saturate at the ends: slope 4095 for lift −2.0 / gain 1.0 and for gain 3.0, 0 for gain −3.0 -/
+theorem clamp_after_map_witness :
+    slope12 2000000 1000000 = 0 ∧ slope12 (max (-1000000) (min 1000000 2000000)) 1000000 = 1024 ∧
+    slope12 (-2000000) 1000000 = 4095 ∧ slope12 0 3000000 = 4095 ∧ slope12 0 (-3000000) = 0 ∧
+    offset12 1000000 2000000 = 4095 ∧ offset12 1000000 (-1500000) = 2560 ∧
+    offset12 1000000 (max (-1000000) (min 1000000 (-1500000))) = 3072 := by decide
+
+/-- **clamp order, for a whole region of inputs**: for every lift ≥ 2.0 and gain ≥ 1.0 the slope is 0 (the exact
+value is negative: the factors are used un-clamped), whereas the same formula on inputs clamped to [−1, 1]
+first gives 1024 — the two orders disagree on all of these documents -/
+theorem slope_clamp_order (lift gain : Int) (hl : 2 * M ≤ lift) (hg : (M : Int) ≤ gain) :
+    slope12 lift gain = 0 ∧ slope12 (max (-(M : Int)) (min M lift)) (max (-(M : Int)) (min M gain)) = 1024 := by
+  constructor
+  · rw [slope12_eq, clampRound_eq_zero_iff _ _ _ (by decide) (by decide)]
+    have h0 : (0 : Int) ≤ gain + 2 * M := by simp only [M] at hg ⊢; omega
+    have h1 : (2 * (M : Int) - lift) ≤ 0 := by omega
+    have hp : (gain + 2 * M) * (2 * M - lift) ≤ (gain + 2 * M) * 0 := Int.mul_le_mul_of_nonneg_left h1 h0
+    rw [Int.mul_zero] at hp
+    generalize (gain + 2 * M) * (2 * M - lift) = pr at hp
+    simp only [M]
+    omega
+  · have e1 : max (-(M : Int)) (min M lift) = M := by simp only [M] at hl ⊢; omega
+    have e2 : max (-(M : Int)) (min M gain) = M := by simp only [M] at hg ⊢; omega
+    rw [e1, e2]
+    decide
+
+example : 2 * (M : Int) ≤ 2500000 ∧ (M : Int) ≤ 1000000 := by decide
+
+/-! ## PQ codes from nits (L2 / L10 targets, source levels) -/
+
+/-- the code of an integer luminance is a 12-bit value, non-decreasing in the luminance, over all `u16` inputs -/
+theorem pq_nits_range_mono : (∀ n, pqOfNits n ≤ 4095) ∧ (∀ a b, a ≤ b → pqOfNits a ≤ pqOfNits b) :=
+  ⟨pqOfNits_le, pqOfNits_mono⟩
+
+/-- the anchors: 0 → 0, 100 → 2081, 600 → 2851, 1000 → 3079, 2000 → 3388, 4000 → 3696, 10000 → 4095, and the
+saturation above 10000 nits -/
+theorem pq_nits_anchors :
+    pqOfNits 0 = 0 ∧ pqOfNits 100 = 2081 ∧ pqOfNits 600 = 2851 ∧ pqOfNits 1000 = 3079 ∧ pqOfNits 2000 = 3388 ∧
+    pqOfNits 4000 = 3696 ∧ pqOfNits 10000 = 4095 ∧ pqOfNits 10001 = 4095 ∧ pqOfNits 65535 = 4095 := by
+  decide +kernel
+
+/-- inside the table the code is the certified one (`C19.pq_table_certified`: within 1/2 − 10⁻⁶ of `4095·PQ(n)`) -/
+theorem pq_nits_table (n : Nat) (hn : n ≤ 10000) : pqOfNits n = codeOfNits n ∧ inBracket n 10000 (pqOfNits n) = true := by
+  have : pqOfNits n = codeOfNits n := by simp [pqOfNits, hn]
+  exact ⟨this, this ▸ nits_inBracket n hn⟩
+
+/-- decimal luminances (`target_min_pq`): 12-bit, non-decreasing, the integer-nits table on whole nits and the
+min-luminance table on the four-decimal grid -/
+theorem pq_decimal_props :
+    (∀ mn c, pqOfDecimal mn = some c → c ≤ 4095) ∧
+    (∀ a b c c', a ≤ b → pqOfDecimal a = some c → pqOfDecimal b = some c' → c ≤ c') ∧
+    (∀ n c, n ≤ 10000 → pqOfDecimal (n * M) = some c → c = pqOfNits n) ∧
+    (∀ k c, k ≤ 10000 → pqOfDecimal (k * 100) = some c → c = pqOfMinLum k) := by
+  refine ⟨pqOfDecimal_le, pqOfDecimal_mono, ?_, pqOfDecimal_grid⟩
+  intro n c hn h
+  rw [pqOfDecimal_nits n c hn h]
+  simp [pqOfNits, hn]
+
+-- 0.005 nits → 62, 0.0001 nits → 7, 0 → 0, 100 nits → 2081, 0.0007 nits → 21 (0.0006 would be 19), 10000 → 4095, above: none
+example : pqOfDecimal 5000 = some 62 ∧ pqOfDecimal 100 = some 7 ∧ pqOfDecimal 0 = some 0 ∧
+    pqOfDecimal 100000000 = some 2081 ∧ pqOfDecimal 700 = some 21 ∧ pqOfDecimal 600 = some 19 ∧
+    pqOfDecimal 10000000000 = some 4095 ∧ pqOfDecimal 10000000001 = none := by decide +kernel
+
+/-- the source minimum code (from the L6 minimum luminance in 1/10000 nit): 12-bit, non-decreasing, anchors -/
+theorem pq_minlum_props :
+    (∀ k, k ≤ 10000 → pqOfMinLum k ≤ 4095) ∧ (∀ a b, a ≤ b → b ≤ 10000 → pqOfMinLum a ≤ pqOfMinLum b) ∧
+    pqOfMinLum 0 = 0 ∧ pqOfMinLum 1 = 7 ∧ pqOfMinLum 6 = 19 ∧ pqOfMinLum 7 = 21 ∧ pqOfMinLum 50 = 62 ∧
+    pqOfMinLum 10000 = 614 := by
+  refine ⟨codeOfMinLum_le, codeOfMinLum_mono, ?_, ?_, ?_, ?_, ?_, ?_⟩ <;> decide +kernel
+
+/-- **L2**: the block of a trim for a target of `n ≤ 10000` nits carries the target's PQ code in its first field
+and passes the writer's validation for every trim value -/
+theorem l2_target (n : Nat) (hn : n ≤ 10000) (lift gain gamma chroma sat ms : Int) :
+    let b := l2OfXml (pqOfNits n) lift gain gamma chroma sat ms
+    b.vals.getD 0 0 = (pqOfNits n : Int) ∧ b.level = 2 ∧ b.length = 11 ∧ blockValidate b = true := by
+  have h0 := pqOfNits_le n
+  have r := trim_range lift gain gamma
+  have r1 := (r chroma).1
+  have r2 := (r chroma).2.1
+  have r3 := (r chroma).2.2.1
+  have r4 := (r chroma).2.2.2.1
+  have r5 := (r sat).2.2.2.1
+  have r6 := (r ms).2.2.2.1
+  refine ⟨rfl, rfl, rfl, ?_⟩
+  simp only [blockValidate, l2OfXml, List.getD_cons_zero, List.getD_cons_succ, Bool.and_eq_true, decide_eq_true_eq]
+  omega
+
+example : (l2OfXml (pqOfNits 100) (-15945) (-32541) 419015 0 0 0).vals = [2081, 2013, 2016, 1339, 2048, 2048, 2048] := by
+  decide +kernel
+
+/-! ## L6: MaxCLL, MaxFALL, mastering display luminances -/
+
+/-- every L6 field computed from the document fits 16 bits; negative values read as 0 -/
+theorem l6_range (v : Int) :
+    l6Light v ≤ 65535 ∧ l6MinLum v ≤ 65535 ∧ (v ≤ 0 → l6Light v = 0 ∧ l6MinLum v = 0) := by
+  refine ⟨clampRound_le _ _ _, clampRound_le _ _ _, fun h => ⟨?_, ?_⟩⟩
+  · exact (clampRound_eq_zero_iff _ _ _ M_pos (by decide)).2 (by simp only [M]; omega)
+  · exact (clampRound_eq_zero_iff _ _ _ M_pos (by decide)).2 (by simp only [M]; omega)
+
+/-- **the minimum luminance is rounded to the nearest 1/10000 nit** (not truncated): strictly inside the `u16`
+range the stored value `q` satisfies `q − 1/2 ≤ v·10000 < q + 1/2`; it is 0 below 0.00005 nits; it is
+non-decreasing in `v` -/
+theorem l6_minlum_nearest (v : Int) :
+    (1 ≤ l6MinLum v → l6MinLum v < 65535 →
+      (2 * (l6MinLum v : Int) - 1) * M ≤ 2 * (v * 10000) ∧ 2 * (v * 10000) < (2 * (l6MinLum v : Int) + 1) * M) ∧
+    (l6MinLum v = 0 ↔ v < 50) ∧ (∀ w, v ≤ w → l6MinLum v ≤ l6MinLum w) := by
+  refine ⟨clampRound_nearest _ _ _ M_pos, ?_, fun w h => clampRound_mono _ _ _ _ M_pos (by omega)⟩
+  unfold l6MinLum
+  rw [clampRound_eq_zero_iff _ _ _ M_pos (by decide)]
+  simp only [M]
+  omega
+
+/-- every four-decimal value `k/10000` is read as `k` — in particular 0.0007 as 7 (the repaired defect read 6) -/
+theorem l6_minlum_grid (k : Nat) (hk : k ≤ 65535) : l6MinLum ((k : Int) * 100) = k := by
+  unfold l6MinLum
+  have : (k : Int) * 100 * 10000 = (k : Int) * M := by simp only [M]; omega
+  rw [this]
+  exact clampRound_int _ k M M_pos hk
+
+example : l6MinLum 700 = 7 ∧ l6MinLum 50 = 1 ∧ l6MinLum 49 = 0 ∧ l6MinLum 799 = 8 ∧ l6MinLum 749 = 7 ∧ l6MinLum 750 = 8 ∧
+    l6MinLum 5000 = 50 ∧ l6MinLum 100 = 1 ∧ l6MinLum (-700) = 0 ∧ l6MinLum 7000000 = 65535 := by decide
+
+/-- MaxCLL / MaxFALL are rounded to the nearest integer (ties up), exact on integers, non-decreasing -/
+theorem l6_light (v : Int) :
+    (1 ≤ l6Light v → l6Light v < 65535 →
+      (2 * (l6Light v : Int) - 1) * M ≤ 2 * v ∧ 2 * v < (2 * (l6Light v : Int) + 1) * M) ∧
+    (∀ k : Nat, k ≤ 65535 → l6Light ((k : Int) * M) = k) ∧ (∀ w, v ≤ w → l6Light v ≤ l6Light w) :=
+  ⟨clampRound_nearest _ _ _ M_pos, fun k hk => clampRound_int _ k M M_pos hk,
+   fun w h => clampRound_mono _ _ _ _ M_pos h⟩
+
+example : l6Light 1000000000 = 1000 ∧ l6Light 400500000 = 401 ∧ l6Light 400499999 = 400 ∧ l6Light (-1) = 0 ∧
+    l6Light 70000000000 = 65535 := by decide
+
+/-- the L6 block of the document: fields in struct order, and it passes the writer's validation exactly when
+all four values are at most 10000 -/
+theorem l6_block (peak : Nat) (minLum maxCll maxFall : Int) :
+    (l6Block (l6OfXml peak minLum maxCll maxFall)).vals =
+      [(peak : Int), (l6MinLum minLum : Int), (l6Light maxCll : Int), (l6Light maxFall : Int)] ∧
+    (blockValidate (l6Block (l6OfXml peak minLum maxCll maxFall)) = true ↔
+      peak ≤ 10000 ∧ l6MinLum minLum ≤ 10000 ∧ l6Light maxCll ≤ 10000 ∧ l6Light maxFall ≤ 10000) := by
+  refine ⟨rfl, ?_⟩
+  simp only [blockValidate, l6Block, l6OfXml, List.map_cons, List.map_nil, List.getD_cons_zero, List.getD_cons_succ,
+    Bool.and_eq_true, decide_eq_true_eq, Int.ofNat_eq_natCast]
+  omega
+
+-- the repository sample: 1000 / 0.0001 nits mastering display, MaxCLL 1000, MaxFALL 400
+example : l6OfXml 1000 100 1000000000 400000000 = [1000, 1, 1000, 400] ∧ sourceMinPqOfXml 100 = 7 ∧
+    pqOfNits 1000 = 3079 := by decide +kernel
+
+/-- the source levels derived from the mastering display: both are 12-bit codes for a mastering display inside
+the PQ range, `source_min_pq` is non-decreasing in the minimum luminance and `source_max_pq` in the peak -/
+theorem source_levels (minLum minLum' : Int) (peak peak' : Nat) :
+    (l6MinLum minLum ≤ 10000 → sourceMinPqOfXml minLum ≤ 4095) ∧
+    (minLum ≤ minLum' → l6MinLum minLum' ≤ 10000 → sourceMinPqOfXml minLum ≤ sourceMinPqOfXml minLum') ∧
+    pqOfNits peak ≤ 4095 ∧ (peak ≤ peak' → pqOfNits peak ≤ pqOfNits peak') :=
+  ⟨fun h => codeOfMinLum_le _ h,
+   fun h h' => codeOfMinLum_mono _ _ ((l6_minlum_nearest minLum).2.2 minLum' h) h',
+   pqOfNits_le peak, pqOfNits_mono peak peak'⟩
+
+/-! ## L3 -/
+
+/-- L3 offsets: neutral 0 ↦ 2048, non-decreasing, NOT clamped to 12 bits — the value fits 12 bits exactly for
+offsets below 0.999755859375, so an offset of +1.0 encodes as 4096 and the block is not writable -/
+theorem l3_props (v : Int) :
+    l3off 0 = 2048 ∧ l3off (-1000000) = 0 ∧ l3off 1000000 = 4096 ∧ l3off v ≤ 65535 ∧
+    (l3off v ≤ 4095 ↔ v * 1000000 < 999755859375) := by
+  refine ⟨by decide, by decide, by decide, ?_, ?_⟩
+  · rw [l3off_eq]; exact clampRound_le _ _ _
+  · rw [l3off_eq]
+    have := clampRound_ge_iff 65535 4096 (v * 2048 + 2048 * M) M M_pos (by decide) (by decide)
+    simp only [M] at this ⊢
+    omega
+
+/-- the L3 block: XML order (min, avg, max) ↦ struct order (min, max, avg); writable iff all three fit 12 bits -/
+theorem l3_block (mn av mx : Int) :
+    (l3Block mn av mx).vals = [(l3off mn : Int), (l3off mx : Int), (l3off av : Int)] ∧
+    (blockValidate (l3Block mn av mx) = true ↔ l3off mn ≤ 4095 ∧ l3off mx ≤ 4095 ∧ l3off av ≤ 4095) := by
+  refine ⟨rfl, ?_⟩
+  simp only [blockValidate, l3Block, List.getD_cons_zero, List.getD_cons_succ, Bool.and_eq_true, decide_eq_true_eq]
+  omega
+
+example : (l3Block (-10000) 20000 30000).vals = [2028, 2109, 2089] ∧ blockValidate (l3Block 0 0 1000000) = false := by decide
+
+/-! ## L11 and L254 -/
+
+/-- the L11 block of a `Level11` node: content type, white point, reference mode flag 0, reserved 0;
+writable iff both values are at most 15 -/
+theorem l11_block (ct wp : Nat) :
+    (l11OfXml ct wp).vals = [(ct : Int), (wp : Int), 0, 0, 0] ∧ (l11OfXml ct wp).length = 4 ∧
+    (blockValidate (l11OfXml ct wp) = true ↔ ct ≤ 15 ∧ wp ≤ 15) := by
+  refine ⟨rfl, rfl, ?_⟩
+  simp only [blockValidate, l11OfXml, List.getD_cons_zero, List.getD_cons_succ, Bool.and_eq_true, decide_eq_true_eq,
+    beq_self_eq_true, and_true]
+  omega
+
+/-- **L11 of the base DM data**: for a CM v4.0 document the stored L11 block is the last L11 default block
+(the one built from the `Level11` node), and the static default `[1, 0, 1, 0, 0]` exactly when there is none;
+CM v2.9 documents have no L11 -/
+theorem xml_base_l11 (c : Config) (l254 : Option (Nat × Nat)) (dm0 : DmData) (h : dmFromXmlConfig c l254 = .ok dm0)
+    (x : Block) (hx : x.level = 11) :
+    x ∈ dm0.levelBlocks 11 ↔
+      c.cmv40 = true ∧ (c.defaults.reverse.find? (fun b => b.level == 11) = some x ∨
+        (c.defaults.all (fun b => b.level != 11) = true ∧ x = l11Static)) := by
+  obtain ⟨_, _, hh, _, _, _, _, hm⟩ := dmFromXmlConfig_spec c l254 dm0 h
+  have hk : ∀ b : Block, sameKey x b = (b.level == 11) := by
+    intro b
+    rw [sameKey_unkeyed (by rw [hx]; rfl), hx]
+    exact Bool.beq_comm
+  have hk' : ∀ b : Block, sameKey b x = (b.level == 11) := by
+    intro b; rw [sameKey_symm]; exact hk b
+  have hfun : sameKey x = fun b => b.level == 11 := funext hk
+  have hdef : (defaultBlocks c).reverse.find? (fun b => b.level == 11) = c.defaults.reverse.find? (fun b => b.level == 11) := by
+    unfold defaultBlocks
+    rw [← List.filter_reverse, List.find?_filter]
+    congr 1
+    funext b
+    by_cases hb : b.level = 11 <;> simp [hb]
+  have hall : (defaultBlocks c).all (fun b => !sameKey b x) = c.defaults.all (fun b => b.level != 11) := by
+    unfold defaultBlocks
+    rw [List.all_filter]
+    congr 1
+    funext b
+    rw [hk']
+    by_cases hb : b.level = 11
+    · simp [hb]
+    · have e : (b.level == 11) = false := by simpa using hb
+      simp [e, bne]
+  have hholds : holds dm0 11 ↔ c.cmv40 = true := by
+    rw [hh]; simp [cmv29Levels, cmv40Levels]
+  have hst : (statics c).reverse.find? (sameKey x) = some l11Static := by
+    rw [hfun]
+    unfold statics
+    cases c.level6 <;> rfl
+  have hstall : (statics c).all (fun b => !sameKey b x) = false := by
+    unfold statics
+    cases c.level6 <;> simp [hk']
+  have := hm x
+  rw [hx] at this
+  rw [this, hfun, hdef, hall, hholds, ← hfun, hst, hstall]
+  constructor
+  · rintro (⟨a, b⟩ | ⟨a, b, e⟩ | ⟨_, e, _⟩)
+    · exact ⟨a, .inl b⟩
+    · exact ⟨b, .inr ⟨a, by injection e with e; exact e.symm⟩⟩
+    · cases e
+  · rintro ⟨a, b | ⟨b, e⟩⟩
+    · exact .inl ⟨a, b⟩
+    · exact .inr (.inl ⟨b, a, by rw [e]⟩)
+
+-- a document with a Level11 node (content type 2, white point 0) and one without
+example : ([l11OfXml 2 0] : List Block).reverse.find? (fun b => b.level == 11) = some (l11OfXml 2 0) ∧
+    ([] : List Block).all (fun b => b.level != 11) = true := by decide
+
+/-- **L254 by CM version**: a CM v4.0 document (XML 4.0.2 / 5.x) stores exactly one L254 block, with the
+`Level254` node's `DMMode` / `DMVersion` or `(0, 2)` without a node; a CM v2.9 document (XML 2.0.5) stores none
+(there is no CM v4.0 container at all) -/
+theorem xml_base_l254 (c : Config) (l254 : Option (Nat × Nat)) (dm0 : DmData) (h : dmFromXmlConfig c l254 = .ok dm0)
+    (hd : ∀ b ∈ c.defaults, b.level ≠ 254) (x : Block) (hx : x.level = 254) :
+    (x ∈ dm0.levelBlocks 254 ↔ c.cmv40 = true ∧ x = l254Block l254) ∧
+    (l254Block none).vals = [0, 2] ∧ (∀ m v, (l254Block (some (m, v))).vals = [(m : Int), (v : Int)]) ∧
+    (c.cmv40 = false → ∀ lv ∈ cmv40Levels, ¬ holds dm0 lv) := by
+  obtain ⟨_, _, hh, _, _, _, _, hm⟩ := dmFromXmlConfig_spec c l254 dm0 h
+  refine ⟨?_, rfl, fun _ _ => rfl, ?_⟩
+  · have hk' : ∀ b : Block, sameKey b x = (b.level == 254) := by
+      intro b
+      rw [sameKey_symm, sameKey_unkeyed (by rw [hx]; rfl), hx]
+      exact Bool.beq_comm
+    have hdall : (defaultBlocks c).all (fun b => !sameKey b x) = true := by
+      rw [List.all_eq_true]
+      intro b hb
+      have hb' : b ∈ c.defaults := (List.mem_filter.1 hb).1
+      rw [hk']
+      simp [hd b hb']
+    have hsall : (statics c).all (fun b => !sameKey b x) = true := by
+      unfold statics
+      cases c.level6 <;> simp [hk']
+    have hdn := (all_not_iff_find_none _ x).1 hdall
+    have hsn := (all_not_iff_find_none _ x).1 hsall
+    have := hm x
+    rw [hx] at this
+    rw [this, hdn, hsn, hdall, hsall]
+    simp
+  · intro hc lv hlv
+    rw [hh]
+    simp only [hc, Bool.false_eq_true, false_and, or_false]
+    revert lv
+    decide
+
+/-- **L6 of every generated frame**: the L6 block of the base DM data is the block of `config.level6` (default
+blocks of level 6 are ignored), the source levels are the config's -/
+theorem xml_base_l6 (c : Config) (l254 : Option (Nat × Nat)) (dm0 : DmData) (h : dmFromXmlConfig c l254 = .ok dm0)
+    (v : List Nat) (hv : c.level6 = some v) (x : Block) (hx : x.level = 6) :
+    (x ∈ dm0.levelBlocks 6 ↔ x = l6Block v) ∧
+    (∀ a, c.sourceMinPq = some a → dm0.main[29]? = some (a : Int)) ∧
+    (∀ a, c.sourceMaxPq = some a → dm0.main[30]? = some (a : Int)) := by
+  obtain ⟨_, _, hh, _, _, h29, h30, hm⟩ := dmFromXmlConfig_spec c l254 dm0 h
+  refine ⟨?_, h29, h30⟩
+  have hk' : ∀ b : Block, sameKey b x = (b.level == 6) := by
+    intro b
+    rw [sameKey_symm, sameKey_unkeyed (by rw [hx]; rfl), hx]
+    exact Bool.beq_comm
+  have hfun : sameKey x = fun b => b.level == 6 := by
+    funext b; rw [sameKey_symm]; exact hk' b
+  have hdall : (defaultBlocks c).all (fun b => !sameKey b x) = true := by
+    rw [List.all_eq_true]
+    intro b hb
+    have hb' := (List.mem_filter.1 hb).2
+    rw [hk']
+    simp only [Bool.and_eq_true, bne_iff_ne, ne_eq] at hb'
+    simp [hb'.2]
+  have hdn := (all_not_iff_find_none _ x).1 hdall
+  have hst : (statics c).reverse.find? (sameKey x) = some (l6Block v) := by
+    rw [hfun]; unfold statics; rw [hv]; rfl
+  have hholds : holds dm0 6 := by rw [hh]; simp [cmv29Levels]
+  have hsall : (statics c).all (fun b => !sameKey b x) = false := by
+    unfold statics; rw [hv]; simp [hk']
+  have := hm x
+  rw [hx] at this
+  rw [this, hdn, hst, hdall, hsall]
+  simp only [reduceCtorEq, and_false, false_or, true_and, Bool.false_eq_true, false_and, or_false, Option.some.injEq]
+  constructor
+  · rintro ⟨_, e⟩; exact e.symm
+  · intro e; exact ⟨hholds, e.symm⟩
+
+-- the hypotheses of the three base-DM theorems are satisfiable, and the stored blocks are the documented ones:
+-- a CM v4.0 document with a Level11 node (2, 0), a Level254 node (0, 2), 1000 / 0.0001-nit mastering display
+def exXmlCfg : Config :=
+  { level6 := some (l6OfXml 1000 100 1000000000 400000000), defaults := [l11OfXml 2 0],
+    sourceMinPq := some (sourceMinPqOfXml 100), sourceMaxPq := some 3079 }
+
+example : ∃ dm0, dmFromXmlConfig exXmlCfg (some (0, 2)) = .ok dm0 ∧
+    dm0.levelBlocks 11 = [l11OfXml 2 0] ∧ dm0.levelBlocks 254 = [l254Block (some (0, 2))] ∧
+    dm0.levelBlocks 6 = [l6Block [1000, 1, 1000, 400]] ∧ dm0.main[29]? = some 7 ∧ dm0.main[30]? = some 3079 := by
+  refine ⟨_, rfl, ?_⟩
+  decide +kernel
+
+-- without a Level11 node the static default is stored; a CM v2.9 document stores neither L11 nor L254
+example : ∃ dm0, dmFromXmlConfig { exXmlCfg with defaults := [] } none = .ok dm0 ∧
+    dm0.levelBlocks 11 = [l11Static] ∧ dm0.levelBlocks 254 = [l254Block none] := by
+  refine ⟨_, rfl, ?_⟩
+  decide +kernel
+
+example : ∃ dm0, dmFromXmlConfig { exXmlCfg with cmv40 := false } none = .ok dm0 ∧
+    dm0.levelBlocks 11 = [] ∧ dm0.levelBlocks 254 = [] ∧ dm0.cmv40 = none := by
+  refine ⟨_, rfl, ?_⟩
+  decide +kernel
+
+/-! ## L10: one block per custom target display -/
+
+/-- custom primaries: non-negative 16-bit values, `round(v·32767)`; 1.0 ↦ 32767; values below 0.0000153 (in
+particular negative coordinates) encode as 0, which the L9 / L10 syntax does not accept for a custom set -/
+theorem prim16_props (v : Int) :
+    prim16 v ≤ 65535 ∧ prim16 0 = 0 ∧ prim16 1000000 = 32767 ∧ (prim16 v = 0 ↔ v ≤ 15) ∧
+    (1 ≤ prim16 v → prim16 v < 65535 →
+      (2 * (prim16 v : Int) - 1) * M ≤ 2 * (v * 32767) ∧ 2 * (v * 32767) < (2 * (prim16 v : Int) + 1) * M) := by
+  refine ⟨by rw [prim16_eq]; exact clampRound_le _ _ _, by decide, by decide, ?_, ?_⟩
+  · rw [prim16_eq, clampRound_eq_zero_iff _ _ _ M_pos (by decide)]
+    simp only [M]
+    omega
+  · rw [prim16_eq]
+    exact clampRound_nearest _ _ _ M_pos
+
+/-- L10 (colour-space presets only): the index is 255 exactly when the primaries are not a preset row -/
+theorem primaries_custom_iff (p : List Int) : primaryIndex false p = 255 ↔ p ∉ colorspacePrimaries := by
+  constructor
+  · intro h hp
+    have := primaries_preset_recognised false p hp
+    omega
+  · intro h
+    apply Decidable.byContradiction
+    intro hne
+    rcases primaries_preset_exact false p hne with h1 | ⟨h2, _⟩
+    · exact h h1
+    · cases h2
+
+/-- **the L10 block of a target display**: id, maximum and minimum PQ in the first three fields; index 255,
+length 21 and the custom values `round(v·32767)` exactly when the primaries are not a colour-space preset,
+otherwise the preset's index (below 9), length 5 and zeros -/
+theorem l10_block_fields (tid mx mn : Nat) (p : List Int) :
+    (l10OfXml tid mx mn p).level = 10 ∧
+    (l10OfXml tid mx mn p).vals.take 3 = [(tid : Int), (mx : Int), (mn : Int)] ∧
+    ((l10OfXml tid mx mn p).vals.getD 3 0 = 255 ↔ p ∉ colorspacePrimaries) ∧
+    (p ∉ colorspacePrimaries → (l10OfXml tid mx mn p).length = 21 ∧
+      (l10OfXml tid mx mn p).vals.drop 4 = p.map fun v => (prim16 v : Int)) ∧
+    (p ∈ colorspacePrimaries → (l10OfXml tid mx mn p).length = 5 ∧
+      (l10OfXml tid mx mn p).vals.getD 3 0 = (primaryIndex false p : Int) ∧ primaryIndex false p < 9 ∧
+      (l10OfXml tid mx mn p).vals.drop 4 = List.replicate 8 0) := by
+  have hc := primaries_custom_iff p
+  unfold l10OfXml
+  by_cases h : primaryIndex false p = 255
+  · have hp := hc.1 h
+    simp [h, hp]
+  · have hp : p ∈ colorspacePrimaries := Decidable.not_not.1 (fun hn => h (hc.2 hn))
+    have hlt := primaries_preset_recognised false p hp
+    simp [h, hp, hlt]
+    omega
+
+/-- **one L10 block per custom target display, in target order**; preset ids get none -/
+theorem l10_one_per_custom_target (ts : List (Nat × Nat × Nat × List Int)) :
+    (l10Defaults ts).map (fun b => b.vals.getD 0 0) =
+      (ts.filter fun t => !presetTargets.contains t.1).map (fun t => (t.1 : Int)) ∧
+    (l10Defaults ts).length = (ts.filter fun t => !presetTargets.contains t.1).length ∧
+    (∀ b ∈ l10Defaults ts, ∃ t ∈ ts, t.1 ∉ presetTargets ∧ b = l10OfXml t.1 t.2.1 t.2.2.1 t.2.2.2) ∧
+    (∀ t ∈ ts, t.1 ∉ presetTargets → l10OfXml t.1 t.2.1 t.2.2.1 t.2.2.2 ∈ l10Defaults ts) := by
+  have hid : ∀ (tid mx mn : Nat) (p : List Int), (l10OfXml tid mx mn p).vals.getD 0 0 = (tid : Int) := by
+    intro tid mx mn p
+    unfold l10OfXml
+    by_cases h : primaryIndex false p = 255 <;> simp [h]
+  refine ⟨?_, by simp [l10Defaults], ?_, ?_⟩
+  · unfold l10Defaults
+    rw [List.map_map]
+    apply List.map_congr_left
+    intro t _
+    exact hid _ _ _ _
+  · intro b hb
+    unfold l10Defaults at hb
+    obtain ⟨t, ht, rfl⟩ := List.mem_map.1 hb
+    obtain ⟨h1, h2⟩ := List.mem_filter.1 ht
+    exact ⟨t, h1, by simpa using h2, rfl⟩
+  · intro t ht hn
+    unfold l10Defaults
+    exact List.mem_map.2 ⟨t, List.mem_filter.2 ⟨ht, by simpa using hn⟩, rfl⟩
+
+/-- with the PQ codes computed from the target's nits (`peak` integer nits, minimum `mn·10⁻⁶` nits), both codes
+are 12-bit values -/
+theorem l10_target_codes (tid peak mn minPq : Nat) (p : List Int) (h : pqOfDecimal mn = some minPq) :
+    (l10OfXml tid (pqOfNits peak) minPq p).vals.getD 1 0 = (pqOfNits peak : Int) ∧ pqOfNits peak ≤ 4095 ∧
+    (l10OfXml tid (pqOfNits peak) minPq p).vals.getD 2 0 = (minPq : Int) ∧ minPq ≤ 4095 := by
+  have h3 := (l10_block_fields tid (pqOfNits peak) minPq p).2.1
+  have e1 : (l10OfXml tid (pqOfNits peak) minPq p).vals.getD 1 0 = ((l10OfXml tid (pqOfNits peak) minPq p).vals.take 3).getD 1 0 := by
+    simp [List.getD_eq_getElem?_getD, List.getElem?_take]
+  have e2 : (l10OfXml tid (pqOfNits peak) minPq p).vals.getD 2 0 = ((l10OfXml tid (pqOfNits peak) minPq p).vals.take 3).getD 2 0 := by
+    simp [List.getD_eq_getElem?_getD, List.getElem?_take]
+  rw [e1, e2, h3]
+  exact ⟨rfl, pqOfNits_le peak, rfl, pqOfDecimal_le mn minPq h⟩
+
+-- target 255: 100 nits, 0.005 nits, custom primaries → max 2081, min 62, length 21; target 1 (preset id): no block
+example : (l10Defaults [(1, pqOfNits 100, 62, [640000, 330000, 300000, 600000, 150000, 60000, 312700, 329000]),
+                        (255, pqOfNits 100, 62, [641000, 332000, 330000, 640000, 155000, 66000, 312770, 329800])]).map
+            (fun b => (b.length, b.vals.take 4)) = [(21, [255, 2081, 62, 255])] ∧ pqOfDecimal 5000 = some 62 := by
+  decide +kernel
+
+/-! ## per-frame trims override the shot's trims only on their frame — at list level -/
+
+/-- an edit applies to offset `i` exactly when some edit of the shot names `i` (the first such edit is used) -/
+theorem frame_edit_exists_iff (s : Shot) (i : Nat) :
+    (∃ e, s.edits.find? (fun (e : FrameEdit) => e.offset == i) = some e) ↔ ∃ e ∈ s.edits, e.offset = i :=
+  find_edit_iff s i
+
+/-- **per-frame override, over the whole generated list**: for every shot (in sorted order) and every offset
+`i` below its duration, the RPU at index `start + i` of the output is built from the shot-only frame (the frame
+the shot generates without any edits — it always exists): it IS that frame when no edit names offset `i`, and
+when the first edit naming `i` is `e` it is that frame with `e`'s blocks replaced in: per key the last block of
+`e` with that key, every other key keeps the shot-only frame's block -/
+theorem xml_frame_override (c : Config) (l254 : Option (Nat × Nat)) (l : List Rpu)
+    (h : generateListXml c l254 = .ok l) :
+    ∃ dm0, dmFromXmlConfig c l254 = .ok dm0 ∧
+      ∀ (k : Nat) (hk : k < (sortShots c.shots).length) (i : Nat), i < (sortShots c.shots)[k].duration →
+        ∃ r d0, l[startOf (sortShots c.shots) k + i]? = some r ∧
+          frameRpu c (baseXml dm0) { (sortShots c.shots)[k] with edits := [] } i =
+            .ok { baseXml dm0 with vdr_dm_data := some d0 } ∧ Uniq d0 ∧
+          ((∀ e ∈ (sortShots c.shots)[k].edits, e.offset ≠ i) → r = { baseXml dm0 with vdr_dm_data := some d0 }) ∧
+          (∀ e, (sortShots c.shots)[k].edits.find? (fun (e : FrameEdit) => e.offset == i) = some e →
+            ∃ d, r = { baseXml dm0 with vdr_dm_data := some d } ∧ d0.replaceBlocks e.blocks = .ok d ∧ Uniq d ∧
+              shell d = shell d0 ∧
+              ∀ x : Block, x ∈ d.levelBlocks x.level ↔
+                (holds d0 x.level ∧ e.blocks.reverse.find? (sameKey x) = some x) ∨
+                (e.blocks.all (fun b => !sameKey b x) = true ∧ x ∈ d0.levelBlocks x.level)) := by
+  obtain ⟨dm0, h1, hu, hf, hall⟩ := generateListXml_frames c l254 l h
+  refine ⟨dm0, h1, ?_⟩
+  intro k hk i hi
+  obtain ⟨r, hr1, hr2⟩ := hall k hk i hi
+  obtain ⟨d0, d, e1, u0, _, _, e2, e3⟩ := frameRpu_split c (baseXml dm0) _ i r dm0 rfl hf hu hr2
+  refine ⟨r, d0, hr1, e1, u0, ?_, ?_⟩
+  · intro hno
+    rw [editBlocks_nil_of_no_edit _ i hno] at e2
+    simp only [DmData.replaceBlocks, Res.ok.injEq] at e2
+    rw [e3, e2]
+  · intro e he
+    have hb : editBlocks (sortShots c.shots)[k] i = e.blocks := by simp [editBlocks, he]
+    rw [hb] at e2
+    obtain ⟨a1, a2, _, a4⟩ := replaceBlocks_spec e.blocks d0 d u0 e2
+    exact ⟨d, e3, e2, a1, a2, a4⟩
+
+-- the hypotheses are satisfiable: a CM v4.0 document with two shots in shuffled document order; the shot
+-- starting at 5 has an L3 edit at offset 1 → output index 2; only that frame carries the L3 block
+def exEditCfg : Config :=
+  { level6 := some [1000, 1, 1000, 400],
+    shots := [{ start := 5, duration := 2, edits := [{ offset := 1, blocks := [l3Block 0 0 0] }] },
+              { start := 0, duration := 1 }] }
+
+example : ∃ l, generateListXml exEditCfg none = .ok l ∧ l.length = 3 ∧
+    l.map (fun r => r.vdr_dm_data.map fun d => d.levelBlocks 3) = [some [], some [], some [l3Block 0 0 0]] ∧
+    l.map (fun r => r.vdr_dm_data.map fun d => d.levelBlocks 6) =
+      [some [l6Block [1000, 1, 1000, 400]], some [l6Block [1000, 1, 1000, 400]], some [l6Block [1000, 1, 1000, 400]]] := by
+  refine ⟨_, rfl, ?_⟩
+  decide +kernel
+
+example : ∀ s ∈ exEditCfg.shots, (∀ b ∈ s.blocks, b.level ≠ 6) ∧ ∀ e ∈ s.edits, ∀ b ∈ e.blocks, b.level ≠ 6 := by decide
+
+/-- **precedence, over the whole generated list** (the XML counterpart of `C10.gen_precedence`): per key the
+block of a frame is the one of the applicable frame edit, else the shot's, else the base DM data's -/
+theorem xml_precedence (c : Config) (l254 : Option (Nat × Nat)) (l : List Rpu)
+    (h : generateListXml c l254 = .ok l) :
+    ∃ dm0, dmFromXmlConfig c l254 = .ok dm0 ∧ Uniq dm0 ∧
+      ∀ (k : Nat) (hk : k < (sortShots c.shots).length) (i : Nat), i < (sortShots c.shots)[k].duration →
+        ∃ r d, l[startOf (sortShots c.shots) k + i]? = some r ∧ r = { baseXml dm0 with vdr_dm_data := some d } ∧
+          Uniq d ∧ shell d = { shell dm0 with scene_refresh_flag := cutFlag c i } ∧
+          (∀ lv, holds d lv ↔ holds dm0 lv) ∧
+          ∀ x : Block, x ∈ d.levelBlocks x.level ↔
+            (holds dm0 x.level ∧ (editBlocks (sortShots c.shots)[k] i).reverse.find? (sameKey x) = some x) ∨
+            ((editBlocks (sortShots c.shots)[k] i).all (fun b => !sameKey b x) = true ∧ holds dm0 x.level ∧
+              (sortShots c.shots)[k].blocks.reverse.find? (sameKey x) = some x) ∨
+            ((editBlocks (sortShots c.shots)[k] i).all (fun b => !sameKey b x) = true ∧
+              (sortShots c.shots)[k].blocks.all (fun b => !sameKey b x) = true ∧ x ∈ dm0.levelBlocks x.level) := by
+  obtain ⟨dm0, h1, hu, hf, hall⟩ := generateListXml_frames c l254 l h
+  refine ⟨dm0, h1, hu, ?_⟩
+  intro k hk i hi
+  obtain ⟨r, hr1, hr2⟩ := hall k hk i hi
+  obtain ⟨d, e1, e2, e3, e4, e5⟩ := frameRpu_spec c (baseXml dm0) _ i r dm0 rfl hf hu hr2
+  exact ⟨r, d, hr1, e1, e2, e3, e4, e5⟩
+
+/-- **L6 and the source levels of every generated frame**: a CM XML document has no per-shot L6, so every frame
+carries exactly the L6 block of the document's `Level6` / `MasteringDisplay` nodes -/
+theorem xml_l6_every_frame (c : Config) (l254 : Option (Nat × Nat)) (l : List Rpu)
+    (h : generateListXml c l254 = .ok l) (v : List Nat) (hv : c.level6 = some v)
+    (hs : ∀ s ∈ c.shots, (∀ b ∈ s.blocks, b.level ≠ 6) ∧ ∀ e ∈ s.edits, ∀ b ∈ e.blocks, b.level ≠ 6) :
+    ∀ (k : Nat) (hk : k < (sortShots c.shots).length) (i : Nat), i < (sortShots c.shots)[k].duration →
+      ∃ r d, l[startOf (sortShots c.shots) k + i]? = some r ∧ r.vdr_dm_data = some d ∧
+        ∀ x : Block, x.level = 6 → (x ∈ d.levelBlocks 6 ↔ x = l6Block v) := by
+  obtain ⟨dm0, h1, hu, hall⟩ := xml_precedence c l254 l h
+  intro k hk i hi
+  obtain ⟨r, d, hr, e1, _, _, _, e5⟩ := hall k hk i hi
+  refine ⟨r, d, hr, by rw [e1], ?_⟩
+  intro x hx
+  have hmem : (sortShots c.shots)[k] ∈ c.shots := (sortShots_perm c.shots).mem_iff.1 (List.getElem_mem hk)
+  obtain ⟨hsb, hse⟩ := hs _ hmem
+  have hnot : ∀ bs : List Block, (∀ b ∈ bs, b.level ≠ 6) → bs.all (fun b => !sameKey b x) = true := by
+    intro bs hb
+    rw [List.all_eq_true]
+    intro b hbm
+    have : sameKey b x = false := sameKey_false_of_level (by rw [hx]; exact hb b hbm)
+    simp [this]
+  have hedit : ∀ b ∈ editBlocks (sortShots c.shots)[k] i, b.level ≠ 6 := by
+    intro b hb
+    unfold editBlocks at hb
+    split at hb
+    · rename_i e he
+      exact hse e (List.mem_of_find?_eq_some he) b hb
+    · cases hb
+  have a1 := hnot _ hedit
+  have a2 := hnot _ hsb
+  have n1 := (all_not_iff_find_none _ x).1 a1
+  have n2 := (all_not_iff_find_none _ x).1 a2
+  have := e5 x
+  rw [hx] at this
+  rw [this, n1, n2, a1, a2]
+  simp only [reduceCtorEq, and_false, false_or, true_and]
+  exact (xml_base_l6 c l254 dm0 h1 v hv x hx).1
 
 end Dovi.C11
